@@ -79,8 +79,14 @@ def _kw(e, name):
     return None
 
 
+def _unopt(v):
+    if isinstance(v, VOpt) and isinstance(v.sort.inner, IntS):
+        return v.val()
+    return v
+
+
 def function(ex, frame, e, name, hint, want_seq):
-    ev = lambda n, **kw: ex.eval(n, frame, **kw)
+    ev = lambda n, **kw: _unopt(ex.eval(n, frame, **kw))
     A = e.args
     if name == 'len':
         v = ev(A[0])
@@ -351,6 +357,8 @@ def method(ex, frame, e, base, meth, hint):
             j = z3.Int(fresh_name('j'))
             new = VList(base.n + 1, z3.Lambda([j], z3.If(j < i, base.arr[j],
                                                          z3.If(j == i, x, base.arr[j - 1]))), base.elem)
+            new.inserted_at = i
+            new.inserted_val = x
             ex.mutate(base, new)
             return VNone()
         if meth == 'remove':
